@@ -8,6 +8,17 @@
 #include <nstd/PoolList.hpp>
 #include <nstd/System.hpp>
 
+#ifdef NSTD_VERIF
+// verification hooks (off unless NSTD_VERIF is defined): the plain reads/writes of shared variables that are steps
+// of the queue / pool protocol become scheduling points of the cooperative scheduler in /verif/harness/sched, and
+// the pool's constants can be overridden so that small thread counts and queue capacities are reachable.
+extern "C" void nstd_verif_point(int kind, const volatile void* addr);
+extern "C" void nstd_verif_pool_cfg(usize* minThreads, usize* maxThreads, usize* queueSize);
+#define NSTD_VERIF_POINT(kind, addr) nstd_verif_point(kind, (const volatile void*)(addr))
+#else
+#define NSTD_VERIF_POINT(kind, addr)
+#endif
+
 class Future<void>::Private
 {
 public:
@@ -62,6 +73,10 @@ public:
     {
       if (_maxThreads < 3)
         _maxThreads = 3;
+#ifdef NSTD_VERIF
+      if (maxThreads && maxThreads < 3)
+        _maxThreads = maxThreads;
+#endif
     }
 
     ~ThreadPool()
@@ -96,7 +111,9 @@ public:
 
       // adjust worker thread count
       usize pushedJobs = Atomic::increment(_pushedJobs);
+      NSTD_VERIF_POINT(6, &_processedJobs);
       ssize busyThreads = (ssize)(pushedJobs - _processedJobs);
+      NSTD_VERIF_POINT(6, &_threadCount);
       usize threadCount = _threadCount;
       ssize idleThreads = (ssize)threadCount - busyThreads;
       if (idleThreads == 1)
@@ -189,6 +206,7 @@ public:
           else
             break;
         }
+        NSTD_VERIF_POINT(7, &_terminated);
         _terminated = true;
         return 0;
       }
@@ -230,12 +248,14 @@ Future<void>::Private::Framework::~Framework()
 
 void Future<void>::set()
 {
+  NSTD_VERIF_POINT(6, &_aborting);
   Atomic::swap(_state, _aborting ? abortedState : finishedState);
   _sig.set();
 }
 
 void Future<void>::startProc(void (*proc)(void *), void *args)
 {
+  NSTD_VERIF_POINT(6, &Private::_threadPool);
   Private::ThreadPool *threadPool = Private::_threadPool;
   if (!threadPool)
   {
@@ -243,9 +263,18 @@ void Future<void>::startProc(void (*proc)(void *), void *args)
       ;
     if (!(threadPool = Private::_threadPool))
     {
+#ifdef NSTD_VERIF
+      {
+        usize minThreads = 0, maxThreads = System::getProcessorCount(), queueSize = 0x100;
+        nstd_verif_pool_cfg(&minThreads, &maxThreads, &queueSize);
+        threadPool = new Private::ThreadPool(minThreads, maxThreads, queueSize);
+      }
+#else
       threadPool = new Private::ThreadPool;
+#endif
       Atomic::swap(Private::_threadPool, threadPool);
     }
+    NSTD_VERIF_POINT(7, &Private::_threadPoolLock);
     Private::_threadPoolLock = 0;
   }
 
@@ -298,10 +327,12 @@ template <typename T>
 inline bool Future<void>::Private::LockFreeQueue<T>::push(const T &data)
 {
   Node *node;
+  NSTD_VERIF_POINT(6, &_tail);
   usize next, tail = _tail;
   for (;; tail = next)
   {
     node = &_queue[tail & _capacityMask];
+    NSTD_VERIF_POINT(6, &node->tail);
     if (node->tail != tail)
       return false;
     if ((next = Atomic::compareAndSwap(_tail, tail, tail + 1)) == tail)
@@ -316,10 +347,12 @@ template <typename T>
 inline bool Future<void>::Private::LockFreeQueue<T>::pop(T &result)
 {
   Node *node;
+  NSTD_VERIF_POINT(6, &_head);
   usize next, head = _head;
   for (;; head = next)
   {
     node = &_queue[head & _capacityMask];
+    NSTD_VERIF_POINT(6, &node->head);
     if (node->head != head)
       return false;
     if ((next = Atomic::compareAndSwap(_head, head, head + 1)) == head)
